@@ -1,3 +1,6 @@
 """Per-property level and explanation strings used in the evidence files."""
-LEVELS = {"C02": "proof", "C03": "proof", "C16": "proof"}
-EXPLAIN = {}
+LEVELS = {"C02": "proof", "C03": "proof", "C16": "proof", "C18": "other", "C10": "other"}
+EXPLAIN = {
+    "C18": "depth clause: every obligation generated from the contracted functions, the chain lemma and the call-site audit is discharged (proof for all inputs); cost clause (polynomial work): not decided by this technique",
+    "C10": "error protocol and the contracted callers: every obligation discharged (proof for all states); the clause 'names exactly the failing top-level items' is not decided",
+}
